@@ -364,6 +364,78 @@ theorem withIndex_pairs_true_index_colMajor {κ : Type} (cell : Nat × Nat → O
       subst h1
       exact ⟨rfl, h2.symm⟩
 
+/-- The counters `WithIndex` reads show, in *every* state, the position the wrapped iterator is
+    about to fetch — for the shape iterator and both matrix odometers. -/
+theorem counters_show_position :
+    (∀ (s s' : ShapeIter) p, shapeNext s = .ok (some p, s') → s.indexes = p) ∧
+      (∀ (s s' : MatIter) p, rowMajorNext s = .ok (some p, s') →
+        (s.rowCounter, s.columnCounter) = p) ∧
+      (∀ (s s' : MatIter) p, colMajorNext s = .ok (some p, s') →
+        (s.rowCounter, s.columnCounter) = p) :=
+  ⟨shapeNext_counter, rowMajorNext_counter, colMajorNext_counter⟩
+
+/-- The *copying* with-index iterators, any state: the returned index is the position whose
+    cell's content was copied. -/
+theorem withIndex_true_index_copy {σ π κ α : Type} (next : σ → Outcome (Option π × σ))
+    (counter : σ → π) (hcounter : ∀ s s' p, next s = .ok (some p, s') → counter s = p)
+    (cell : π → Option κ) (mem : κ → α) (s s' : σ) (i : π) (x : Option α)
+    (h : withIndexNext counter (copyNext next cell mem) s = .ok (some (i, x), s')) :
+    next s = .ok (some i, s') ∧ x = (cell i).map mem := by
+  simp only [withIndexNext, copyNext] at h
+  cases hn : next s with
+  | panic k => simp [hn] at h
+  | ok r =>
+    obtain ⟨p, t⟩ := r
+    cases p with
+    | none => simp [hn] at h
+    | some p =>
+      have hc := hcounter s t p hn
+      simp only [hn, Option.map_some, Outcome.ok.injEq, Prod.mk.injEq, Option.some.injEq] at h
+      obtain ⟨⟨h1, h2⟩, h3⟩ := h
+      subst h3
+      rw [hc] at h1
+      subst h1
+      exact ⟨rfl, h2.symm⟩
+
+/-- The *owning* with-index iterators, any state and any memory: the returned index is the
+    position whose cell's content was moved out, and exactly that cell now holds the
+    placeholder. -/
+theorem withIndex_true_index_owned {σ π κ α : Type} [DecidableEq κ]
+    (next : σ → Outcome (Option π × σ)) (counter : σ → π)
+    (hcounter : ∀ s s' p, next s = .ok (some p, s') → counter s = p)
+    (cell : π → Option κ) (placeholder : α) (s s' : σ) (mem mem' : κ → α) (i : π) (c : κ)
+    (x : Option α) (hcell : cell i = some c)
+    (h : withIndexNext (fun (t : σ × (κ → α)) => counter t.1) (ownedNext next cell placeholder)
+      (s, mem) = .ok (some (i, x), (s', mem'))) :
+    next s = .ok (some i, s') ∧ x = some (mem c) ∧ mem' = update mem c placeholder := by
+  simp only [withIndexNext, ownedNext] at h
+  cases hn : next s with
+  | panic k => simp [hn] at h
+  | ok r =>
+    obtain ⟨p, t⟩ := r
+    cases p with
+    | none => simp [hn] at h
+    | some p =>
+      have hc := hcounter s t p hn
+      simp only [hn] at h
+      cases hcp : cell p with
+      | none =>
+        simp only [hcp, Option.map_some, Outcome.ok.injEq, Prod.mk.injEq, Option.some.injEq] at h
+        obtain ⟨⟨h1, _⟩, _⟩ := h
+        rw [hc] at h1
+        subst h1
+        rw [hcell] at hcp
+        cases hcp
+      | some c' =>
+        simp only [hcp, Option.map_some, Outcome.ok.injEq, Prod.mk.injEq, Option.some.injEq] at h
+        obtain ⟨⟨h1, h2⟩, h3, h4⟩ := h
+        rw [hc] at h1
+        subst h1
+        rw [hcell] at hcp
+        cases hcp
+        subst h3
+        exact ⟨rfl, h2.symm, h4.symm⟩
+
 /-- … and globally: the with-index iterators yield, call by call, the documented position
     paired with the cell of that position — for tensors over any source … -/
 theorem withIndex_kth {κ : Type} (shape : List Nat) (cell : List Nat → Option κ) (n : Nat) :
